@@ -21,6 +21,14 @@ class Prop(PoolProp):
             return ("starve", seed, "R"), chooser_starve(random.Random(seed), "R")
         return PoolProp.gen_chooser(self, rng)
 
+    def cover_cfgs(self, tier):
+        # two calls on one pool; a factory pool whose only worker retires after every chunk
+        cfgs = [Cfg(n_workers=1, calls=[(1, 1, True), (1, 1, False)]), Cfg(n_workers=1, factory=True, quota=1, calls=[(2, 1, True)])]
+        if tier == "thorough":
+            cfgs += [Cfg(n_workers=1, factory=True, quota=1, calls=[(1, 1, True), (1, 1, True)]),
+                     Cfg(n_workers=2, factory=True, quota=1, calls=[(2, 1, False)])]
+        return cfgs
+
     def corpus(self):
         return [(Cfg(n_workers=1, factory=True, quota=1, calls=[(1, 1, True), (2, 1, True)]), ("starve", 3, "R"),
                  chooser_starve(random.Random(3), "R"), "D17: stop token posted while the replace thread is busy"),
